@@ -111,6 +111,7 @@ def judge(case, ctx, ds):
             ctx.violation(f"C08/raises-{type(cons).__name__}", f"{cfg} raised {exc_desc(cons)}", sub)
             continue
         ctx.count("runs:" + cfg)
+        ctx.unit()
         try:
             rankings = [libx.raw_ranking(r) for r in cons.consensus_rankings]
         except Exception:      # pylint: disable=broad-except
